@@ -902,6 +902,8 @@ impl Engine for OtlpSim {
         // time only moves when nothing is runnable: with a 30 s request timeout in play, firing timers while the
         // worker is runnable makes requests "time out" at the client that the collector saw complete
         sched.lock().early_timer_pct = 0;
+        // running code takes time: consecutive clock readings differ (by a nanosecond), so "elapsed" is never zero
+        sched.lock().clock_reading_cost_ns = 1;
         let col = Arc::new(Collector {
             sched: sched.clone(),
             hosts: hosts.clone(),
